@@ -254,7 +254,13 @@ pub fn run_case(ctx: &mut Ctx, fam: &str, k: u64, r: &mut Rng) {
         "large" => {
             // sizes beyond any blocking / unrolling threshold (5..20, occasionally 33), 0..2 leading dims
             let pick = |r: &mut Rng| -> usize { if r.chance(1, 10) { *r.pick(&[31, 33, 63, 64, 65]) } else { r.range(5, 20) } };
-            let (m, kk, n) = (pick(r), pick(r), pick(r));
+            let (mut m, mut kk, mut n) = (pick(r), pick(r), pick(r));
+            // now and then a long inner dimension (dot products of 100..260 terms) between small outer ones
+            if r.chance(1, 8) {
+                kk = *r.pick(&[100, 127, 128, 129, 132, 200, 256, 260]);
+                m = r.range(1, 4);
+                n = r.range(1, 4);
+            }
             let lead: Vec<usize> = match r.below(4) { 0 => vec![], 1 => vec![r.range(2, 3)], 2 => vec![1, 2], _ => vec![2, 1] };
             let mut la = if r.chance(1, 3) { vec![] } else { lead.clone() };
             let mut lb = if r.chance(1, 3) { vec![] } else if r.chance(1, 3) { lead.iter().map(|_| 1).collect() } else { lead.clone() };
